@@ -170,15 +170,20 @@ def dispatch(E, c, tc, args):
     if me and len(args) == 2:
         r = ref_chain(E, args[0])
         d = E.read_ref(r)
-        if isinstance(d, VSeq) and d.kind in ("map", "umap"):
-            return VStruct("#Entry", [VRef(r.cell, r.path), args[1]])
-    if re.search(r"Entry::<.*>::(or_default|or_insert_with|or_insert)(::<.*>)?$", c, re.S) and args and isinstance(args[0], VStruct) and args[0].name == "#Entry":
-        mref, key = args[0].fields
+        if isinstance(d, VSeq) and d.kind in ("map", "umap", "hmap"):
+            kid = str(elem_ident(E, args[1]))
+            for k, it in enumerate(d.items):
+                if str(elem_ident(E, it.fields[0])) == kid:
+                    return VEnum("Entry", "Occupied", [VStruct("#Occ", [VRef(r.cell, r.path), args[1], VInt(k, "usize")])])
+            return VEnum("Entry", "Vacant", [VStruct("#Vac", [VRef(r.cell, r.path), args[1]])])
+    if re.search(r"Entry::<.*>::(or_default|or_insert_with|or_insert)(::<.*>)?$", c, re.S) and args and isinstance(args[0], VEnum) and args[0].ty == "Entry":
+        pay = args[0].fields[0]
+        mref = pay.fields[0]
         d = E.read_ref(mref)
-        kid = str(elem_ident(E, key))
-        for k, it in enumerate(d.items):
-            if str(elem_ident(E, it.fields[0])) == kid:
-                return VRef(mref.cell, mref.path + (("field", k), ("field", 1)))
+        if args[0].variant == "Occupied":
+            k = conc(E, pay.fields[2].t, "entry index")
+            return VRef(mref.cell, mref.path + (("field", k), ("field", 1)))
+        key = pay.fields[1]
         if c.split("::")[-1].startswith("or_default"):
             mt_ = re.search(r"Entry::<.*?, (.*)>::or_default$", c, re.S)
             val = VSeq([], "vec") if mt_ and last_seg_(mt_.group(1)) == "Vec" else None
@@ -190,7 +195,20 @@ def dispatch(E, c, tc, args):
             val = args[1]
         d.items.append(VStruct("()", [key, val]))
         return VRef(mref.cell, mref.path + (("field", len(d.items) - 1), ("field", 1)))
-    m3 = re.search(r"(?:^|::)(BTreeMap|HashMap|LinkedHashMap)::<.*>::(insert|get|get_mut|contains_key|new)(?:::<.*>)?$", c, re.S)
+    if re.search(r"OccupiedEntry::<.*>::(get_mut|get|into_mut)$", c, re.S) and args:
+        pay = deref(E, args[0])
+        if isinstance(pay, VStruct) and pay.name == "#Occ":
+            mref = pay.fields[0]
+            k = conc(E, pay.fields[2].t, "entry index")
+            return VRef(mref.cell, mref.path + (("field", k), ("field", 1)))
+    if re.search(r"VacantEntry::<.*>::insert$", c, re.S) and len(args) == 2:
+        pay = deref(E, args[0])
+        if isinstance(pay, VStruct) and pay.name == "#Vac":
+            mref = pay.fields[0]
+            d = E.read_ref(mref)
+            d.items.append(VStruct("()", [pay.fields[1], args[1]]))
+            return VRef(mref.cell, mref.path + (("field", len(d.items) - 1), ("field", 1)))
+    m3 = re.search(r"(?:^|::)(BTreeMap|HashMap|LinkedHashMap)::<.*>::(insert|get|get_mut|contains_key|new|remove)(?:::<.*>)?$", c, re.S)
     if m3:
         meth = m3.group(2)
         if meth == "new" and not args:
@@ -217,6 +235,10 @@ def dispatch(E, c, tc, args):
                 return some(old)
             if meth == "contains_key":
                 return VBool(pos is not None)
+            if meth == "remove":
+                if pos is None:
+                    return NONE()
+                return some(d.items.pop(pos).fields[1])
             if meth in ("get", "get_mut"):
                 return some(VRef(r.cell, r.path + (("field", pos), ("field", 1)))) if pos is not None else NONE()
     if re.match(r"^<std::vec::Vec<.*> as (std::iter::)?Extend<.*>>::extend(::<.*>)?$", c, re.S) and len(args) == 2:
